@@ -267,7 +267,7 @@ def gen_cfg(rnd, hooks_p=0.8):
     hooks = list(runprog.HOOKS) if rnd.random() < hooks_p else [h for h in runprog.HOOKS if rnd.random() < 0.5]
     return {"dry_run": rnd.random() < 0.15, "stop": rnd.random() < 0.25, "show_skipped": rnd.random() < 0.5,
             "expr": rnd.choice(EXPRS), "hooks": hooks, "faults": [], "hook_cleanups": [],
-            "continue_after_failed": rnd.random() < 0.15}
+            "continue_after_failed": rnd.random() < 0.15, "async_steps": rnd.random() < 0.25}
 
 
 def gen_program(rnd, kinds=None, nfeatures=None):
